@@ -46,7 +46,7 @@ fn eat_box(x: Box<D>) -> felt252 nopanic { eat_d(x.unbox()) }
 "#;
 
 #[derive(Clone, Copy, PartialEq, Eq, Debug)]
-pub enum Ty { Felt, P, D, N, X, Y, Arr, E, EN, W, Dict, BoxD }
+pub enum Ty { Felt, P, D, N, X, Y, Arr, E, EN, W, Dict, BoxD, AP, AX }
 #[derive(Clone, Copy, PartialEq, Eq, Debug)]
 pub enum Class { Copy, Drop, Must, Destr, PDestr }
 
@@ -55,15 +55,15 @@ pub fn class(t: Ty) -> Class {
         Ty::Felt | Ty::P => Class::Copy,
         Ty::D | Ty::Arr | Ty::E | Ty::BoxD => Class::Drop,
         Ty::N | Ty::EN | Ty::W => Class::Must,
-        Ty::X | Ty::Dict => Class::Destr,
-        Ty::Y => Class::PDestr,
+        Ty::X | Ty::Dict | Ty::AX => Class::Destr,
+        Ty::Y | Ty::AP => Class::PDestr,
     }
 }
 fn ty_name(t: Ty) -> &'static str {
     match t {
         Ty::Felt => "felt252", Ty::P => "P", Ty::D => "D", Ty::N => "N", Ty::X => "X", Ty::Y => "Y",
         Ty::Arr => "Array<felt252>", Ty::E => "E", Ty::EN => "EN", Ty::W => "W",
-        Ty::Dict => "Felt252Dict<felt252>", Ty::BoxD => "Box<D>",
+        Ty::Dict => "Felt252Dict<felt252>", Ty::BoxD => "Box<D>", Ty::AP => "AP", Ty::AX => "AX",
     }
 }
 /// nopanic consumer of a value of type t, as a felt252 expression
@@ -74,19 +74,30 @@ fn eat(t: Ty, v: &str) -> String {
         Ty::X => format!("eat_x({v})"), Ty::Y => format!("eat_y({v})"), Ty::Arr => format!("eat_arr({v})"),
         Ty::E => format!("eat_e({v})"), Ty::EN => format!("eat_en({v})"), Ty::W => format!("eat_w({v})"),
         Ty::Dict => format!("eat_dict({v})"), Ty::BoxD => format!("eat_box({v})"),
+        Ty::AP => format!("eat_ap({v})"), Ty::AX => format!("eat_ax({v})"),
     }
 }
-const ALL_TYS: [Ty; 12] = [Ty::Felt, Ty::P, Ty::D, Ty::N, Ty::X, Ty::Y, Ty::Arr, Ty::E, Ty::EN, Ty::W, Ty::Dict, Ty::BoxD];
+const ALL_TYS: [Ty; 14] = [Ty::Felt, Ty::P, Ty::D, Ty::N, Ty::X, Ty::Y, Ty::Arr, Ty::E, Ty::EN, Ty::W, Ty::Dict, Ty::BoxD, Ty::AP, Ty::AX];
 /// types whose constructor expression is a (panicable) call
 fn ctor_calls(t: Ty) -> bool { matches!(t, Ty::Arr | Ty::Dict | Ty::BoxD) }
-const NONCOPY: [Ty; 8] = [Ty::D, Ty::N, Ty::X, Ty::Y, Ty::Arr, Ty::E, Ty::EN, Ty::W];
+const NONCOPY: [Ty; 10] = [Ty::D, Ty::N, Ty::X, Ty::Y, Ty::Arr, Ty::E, Ty::EN, Ty::W, Ty::AP, Ty::AX];
 
 #[derive(Clone, Debug)]
 struct Var { name: String, ty: Ty, live: bool, mutable: bool }
 
 /// What a mutant injects (the generator knows it is there and that control reaches it).
 #[derive(Clone, Debug, PartialEq, Eq)]
-pub enum Inject { UseAfterMove(String), MissingDrop(String) }
+pub enum Inject {
+    UseAfterMove(String),
+    MissingDrop(String),
+    /// a violation only where the compiler inserts withdraw_gas (which may panic) into recursive
+    /// functions / loops: rejected iff gas is enabled
+    MissingDropOutOfGas(String),
+}
+
+/// where / what to inject
+#[derive(Clone, Copy, Debug, PartialEq, Eq)]
+pub enum Plan { Uam(usize), Md(usize), Gas }
 
 pub struct Gen {
     rng: Rng,
@@ -98,7 +109,12 @@ pub struct Gen {
     frames: Vec<(usize, Vec<String>)>,
     counter: usize,
     safe_points: usize,
-    plan: Option<(usize, bool)>,
+    plan: Option<Plan>,
+    /// > 0 inside a branch that was chosen to end in a panic
+    panic_region: usize,
+    /// members of the per-crate aggregates AP (PanicDestruct only) and AX (Destruct only)
+    ap: Vec<Ty>,
+    ax: Vec<Ty>,
     pub injected: Option<Inject>,
     diverged: bool,
     in_loop: usize,
@@ -121,6 +137,11 @@ impl Gen {
             Ty::W => format!("W {{ n: N {{ a: {k} }}, d: D {{ a: 2, b: {k} }} }}"),
             Ty::Dict => "Default::<Felt252Dict<felt252>>::default()".to_string(),
             Ty::BoxD => format!("BoxTrait::new(D {{ a: {k}, b: 1 }})"),
+            Ty::AP | Ty::AX => {
+                let ms = if t == Ty::AP { self.ap.clone() } else { self.ax.clone() };
+                let fs: Vec<String> = ms.iter().enumerate().map(|(i, m)| format!("m{i}: {}", self.ctor(*m))).collect();
+                format!("{} {{ {} }}", ty_name(t), fs.join(", "))
+            }
         }
     }
     fn fresh(&mut self, p: &str) -> String {
@@ -183,16 +204,18 @@ impl Gen {
     fn safe_point(&mut self, depth: usize) {
         if self.diverged { return; }
         self.safe_points += 1;
-        if let Some((target, uam)) = self.plan {
-            if target == self.safe_points && self.injected.is_none() {
-                if uam { self.inject_uam(depth) } else { self.inject_md(depth) }
+        if self.injected.is_none() {
+            match self.plan {
+                Some(Plan::Uam(t)) if t == self.safe_points => self.inject_uam(depth),
+                Some(Plan::Md(t)) if t == self.safe_points => self.inject_md(depth),
+                _ => {}
             }
         }
     }
     fn inject_uam(&mut self, depth: usize) {
         let z = self.fresh("zq");
         let live: Vec<usize> = self.consumable();
-        let kind = self.irng.below(10);
+        let kind = self.irng.below(15);
         let t = *self.irng.pick(&NONCOPY);
         let c = {
             let mut g = Gen::scratch(self.irng.next());
@@ -284,6 +307,44 @@ impl Gen {
                     self.line(depth, &format!("acc = mix(acc, {});", eat(t2, &a)));
                     what = format!("{} moved into two mutable variables that are merged", ty_name(t2));
                 }
+                10 | 11 | 12 => {
+                    // the scrutinee of a match / if-let / let-else is named again inside the construct
+                    let (o, q, q2, ot) = (self.fresh("zo"), self.fresh("zr"), self.fresh("zr"), self.fresh("zother"));
+                    let again = format!("match @@ {{ Option::Some({q2}) => {{ acc = mix(acc, {}); }}, Option::None => {{ }} }}", eat(t, &q2));
+                    self.line(depth, &format!("let {o} = Option::Some({z});"));
+                    if kind == 10 {
+                        self.line(depth, &format!("match {o} {{ Option::Some({q}) => {{ acc = mix(acc, {}); }}, {ot} => {{ {} }} }}",
+                            eat(t, &q), again.replace("@@", &ot)));
+                        what = format!("Option<{}> re-bound by a catch-all pattern of its own match", ty_name(t));
+                    } else if kind == 11 {
+                        self.line(depth, &format!("if let Option::Some({q}) = {o} {{ acc = mix(acc, {}); }} else {{ {} }}",
+                            eat(t, &q), again.replace("@@", &o)));
+                        what = format!("Option<{}> used in the else branch of its own if-let", ty_name(t));
+                    } else {
+                        self.line(depth, &format!("let Option::Some({q}) = {o} else {{ {} return acc; }};", again.replace("@@", &o)));
+                        self.line(depth, &format!("acc = mix(acc, {});", eat(t, &q)));
+                        what = format!("Option<{}> used in the else block of its own let-else", ty_name(t));
+                    }
+                }
+                13 | 14 => {
+                    // user enum: catch-all re-binding, nested once more
+                    let (q, o1, o2, f) = (self.fresh("zr"), self.fresh("zother"), self.fresh("zother"), self.fresh("zf"));
+                    let (en, ety, inner) = if self.irng.bool() { ("E", Ty::E, Ty::D) } else { ("EN", Ty::EN, Ty::N) };
+                    let c2 = { let mut g = Gen::scratch(self.irng.next()); g.ctor(ety) };
+                    let e = self.fresh("ze");
+                    self.line(depth, &format!("acc = mix(acc, {});", eat(t, &z)));
+                    self.line(depth, &format!("let {e} = {c2};"));
+                    if kind == 13 {
+                        self.line(depth, &format!("match {e} {{ {en}::A({q}) => {{ acc = mix(acc, {}); }}, {o1} => {{ acc = mix(acc, {}); }} }}",
+                            eat(inner, &q), eat(ety, &o1)));
+                        what = format!("{en} re-bound by a catch-all pattern of its own match");
+                    } else {
+                        self.line(depth, &format!(
+                            "match {e} {{ {en}::B({f}) => {{ acc = mix(acc, {f}); }}, {o1} => {{ match {o1} {{ {en}::A({q}) => {{ acc = mix(acc, {}); }}, {o2} => {{ acc = mix(acc, {}); }} }} }} }}",
+                            eat(inner, &q), eat(ety, &o2)));
+                        what = format!("{en} re-bound twice by nested catch-all patterns");
+                    }
+                }
                 _ => {
                     let r = self.fresh("zr");
                     self.line(depth, &format!("let {r} = ({z}, 1);"));
@@ -298,9 +359,47 @@ impl Gen {
     }
     fn inject_md(&mut self, depth: usize) {
         let z = self.fresh("zq");
-        let kind = self.irng.below(7);
+        let mut kind = self.irng.below(13);
+        // a PanicDestruct-only value may be dropped where every continuation panics
+        if kind >= 7 && kind != 10 && self.panic_region > 0 { kind = 0; }
         let what;
         match kind {
+            7 => {
+                self.line(depth, &format!("let {z} = Y {{ a: 5 }};"));
+                self.line(depth, &format!("let _ = @{z};"));
+                what = "PanicDestruct-only Y never consumed on a path that returns";
+            }
+            8 => {
+                self.line(depth, &format!("let {z} = Y {{ a: 5 }};"));
+                self.line(depth, &format!("if nz(acc) {{ acc = mix(acc, eat_y({z})); }}"));
+                what = "PanicDestruct-only Y consumed in one branch only, the other returns";
+            }
+            9 => {
+                let c = { let mut g = Gen::scratch(self.irng.next()); g.ap = self.ap.clone(); g.ctor(Ty::AP) };
+                self.line(depth, &format!("let {z} = {c};"));
+                self.line(depth, &format!("let _ = @{z};"));
+                what = "PanicDestruct-only aggregate never consumed on a path that returns";
+            }
+            10 => {
+                self.line(depth, &format!("let {z} = N {{ a: 5 }};"));
+                self.line(depth, "if nz(acc) { core::panic_with_felt252('q'); }");
+                self.line(depth, &format!("acc = mix(acc, eat_n({z}));"));
+                what = "N live at an explicit panic";
+            }
+            11 => {
+                self.line(depth, &format!("let mut {z} = Y {{ a: 5 }};"));
+                self.line(depth, &format!("{z} = Y {{ a: 6 }};"));
+                self.line(depth, &format!("acc = mix(acc, eat_y({z}));"));
+                what = "PanicDestruct-only Y overwritten by assignment on a path that returns";
+            }
+            12 => {
+                let o = self.fresh("zo");
+                self.line(depth, &format!("let {z} = Y {{ a: 5 }};"));
+                self.line(depth, &format!("let {o} = Option::Some({z});"));
+                self.line(depth, &format!(
+                    "match {o} {{ Option::Some(_zy) => {{ acc = mix(acc, 1); }}, Option::None => {{}} }}"));
+                what = "PanicDestruct-only Y bound in a match arm and dropped there";
+            }
             0 => {
                 self.line(depth, &format!("let {z} = N {{ a: 5 }};"));
                 self.line(depth, &format!("acc = mix(acc, peek_n(@{z}));"));
@@ -347,7 +446,7 @@ impl Gen {
 
     fn scratch(seed: u64) -> Gen {
         Gen { rng: Rng(seed), irng: Rng(seed ^ 0x5555), out: String::new(), env: vec![], frames: vec![],
-              counter: 0, safe_points: 0, plan: None, injected: None, diverged: false, in_loop: 0,
+              counter: 0, safe_points: 0, plan: None, panic_region: 0, ap: vec![Ty::Y, Ty::Y], ax: vec![Ty::X, Ty::D], injected: None, diverged: false, in_loop: 0,
               shapes: Default::default() }
     }
 
@@ -567,10 +666,13 @@ impl Gen {
         let from = self.env.len();
         self.frames.push((from, handed.to_vec()));
         if let Some((n, t)) = intro { self.env.push(Var { name: n, ty: t, live: true, mutable: false }); }
+        let r = self.rng.below(10);
+        let ends_in_panic = may_diverge && self.in_loop == 0 && r == 1;
+        if ends_in_panic { self.panic_region += 1; }
         self.stmts(depth, budget);
+        if ends_in_panic { self.panic_region -= 1; }
         let mut div = false;
         if !self.diverged {
-            let r = self.rng.below(10);
             if may_diverge && self.in_loop == 0 && r == 0 {
                 self.discharge(depth, 0, &[], true, false);
                 self.line(depth, "return acc;");
@@ -711,12 +813,92 @@ impl Gen {
 
 pub struct Generated { pub text: String, pub safe_points: usize, pub injected: Option<Inject>, pub shapes: std::collections::BTreeMap<&'static str, usize> }
 
-/// Generates the crate for `seed`.  `plan = Some((k, uam))` injects at the k-th reachable point.
-pub fn generate(seed: u64, plan: Option<(usize, bool)>, budget: usize) -> Generated {
+fn inline_attr(r: u64) -> &'static str {
+    match r % 3 { 0 => "", 1 => "#[inline(never)] ", _ => "#[inline(always)] " }
+}
+
+/// The per-crate part of the prelude: inline attributes of the hand-written destructors, the
+/// aggregates AP / AP2 (PanicDestruct only) and AX (Destruct only) whose hand-written destructors
+/// let several members go out of scope implicitly, and small functions that make every
+/// destructor reachable.
+fn crate_prelude(g: &mut Gen) -> String {
+    let mut p = PRELUDE.to_string();
+    p = p.replace("{ fn destruct(self: X)", &format!("{{ {}fn destruct(self: X)", inline_attr(g.rng.next())));
+    p = p.replace("{ fn panic_destruct(self: Y,", &format!("{{ {}fn panic_destruct(self: Y,", inline_attr(g.rng.next())));
+    // members
+    let n_ap = 2 + g.rng.below(2) as usize;
+    g.ap = (0..n_ap).map(|i| if i == 0 || g.rng.below(3) != 0 { Ty::Y } else { *g.rng.pick(&[Ty::X, Ty::D, Ty::Felt]) }).collect();
+    let n_ax = 2 + g.rng.below(2) as usize;
+    g.ax = (0..n_ax).map(|i| if i == 0 || g.rng.bool() { Ty::X } else { *g.rng.pick(&[Ty::D, Ty::Felt, Ty::P]) }).collect();
+    for (name, ms, tr, f, sig) in [("AP", g.ap.clone(), "PanicDestruct", "panic_destruct", ", ref panic: Panic"), ("AX", g.ax.clone(), "Destruct", "destruct", "")] {
+        let fields: Vec<String> = ms.iter().enumerate().map(|(i, m)| format!("m{i}: {}", ty_name(*m))).collect();
+        let style = g.rng.below(4);
+        if style == 0 {
+            p.push_str(&format!("#[derive({tr})]\nstruct {name} {{ {} }}\n", fields.join(", ")));
+        } else {
+            p.push_str(&format!("struct {name} {{ {} }}\n", fields.join(", ")));
+            // some members are consumed explicitly, the others go out of scope implicitly
+            let mut pats = vec![];
+            let mut body = String::new();
+            for (i, m) in ms.iter().enumerate() {
+                if style == 3 && g.rng.bool() && *m != Ty::Felt {
+                    pats.push(format!("m{i}"));
+                    body.push_str(&format!(" let _r{i} = {};", eat(*m, &format!("m{i}"))));
+                } else {
+                    pats.push(format!("m{i}: _"));
+                }
+            }
+            p.push_str(&format!("impl {name}{tr} of {tr}<{name}> {{ {}fn {f}(self: {name}{sig}) nopanic {{ let {name} {{ {} }} = self;{body} }} }}\n",
+                inline_attr(g.rng.next()), pats.join(", ")));
+        }
+        let names: Vec<String> = (0..ms.len()).map(|i| format!("m{i}")).collect();
+        let eats: Vec<String> = ms.iter().enumerate().map(|(i, m)| eat(*m, &format!("m{i}"))).collect();
+        let mut e = "0".to_string();
+        for x in eats.iter().rev() { e = format!("mix({x}, {e})"); }
+        p.push_str(&format!("fn eat_{}(x: {name}) -> felt252 nopanic {{ let {name} {{ {} }} = x; {e} }}\n", name.to_lowercase(), names.join(", ")));
+    }
+    // nested aggregate
+    p.push_str("struct AP2 { p: AP, q: AP, k: felt252 }\n");
+    p.push_str(&format!("impl AP2PanicDestruct of PanicDestruct<AP2> {{ {}fn panic_destruct(self: AP2, ref panic: Panic) nopanic {{ let AP2 {{ p: _, q: _, k: _ }} = self; }} }}\n", inline_attr(g.rng.next())));
+    p.push_str("fn ex_ap_panic(v: AP) -> felt252 { core::panic_with_felt252('e') }\n");
+    p.push_str("fn ex_ap_call(v: AP, a: felt252) -> felt252 { let r = may_panic(a); mix(r, eat_ap(v)) }\n");
+    p.push_str("fn ex_ap2_panic(v: AP2, a: felt252) -> felt252 { if nz(a) { core::panic_with_felt252('e'); } let AP2 { p, q, k } = v; mix(eat_ap(p), mix(eat_ap(q), k)) }\n");
+    p.push_str("fn ex_ax_ret(v: AX) -> felt252 { 5 }\n");
+    p.push_str("fn ex_ax_call(v: AX, a: felt252) -> felt252 { may_panic(a) }\n");
+    p.push_str("fn ex_ax_branch(v: AX, a: felt252) -> felt252 { if nz(a) { eat_ax(v) } else { 3 } }\n");
+    p
+}
+
+/// A function that captures / carries a value without Drop, Destruct or PanicDestruct through a
+/// loop or a recursion whose body is nopanic: legal without gas, a missing drop on the
+/// out-of-gas panic path when the compiler adds withdraw_gas.
+fn gas_violation(g: &mut Gen) -> String {
+    let t = *g.irng.pick(&[Ty::N, Ty::EN, Ty::W]);
+    let k = g.irng.below(4);
+    let e = eat(t, "z");
+    let tn = ty_name(t);
+    let (text, what) = match k {
+        0 => (format!("fn zgas(a: felt252, z: {tn}) -> felt252 {{\n    let mut s = a;\n    let mut r = 0;\n    loop {{\n        if nz(s) {{ r = {e}; break; }}\n        s = mix(1, s);\n    }};\n    r\n}}\n"),
+              "captured by a loop with a nopanic body, consumed on the exit path"),
+        1 => (format!("fn zgas(a: felt252, z: {tn}) -> felt252 {{\n    let mut s = a;\n    loop {{\n        match s {{\n            0 => {{ s = mix(1, s); }},\n            _ => {{ break {e}; }},\n        }}\n    }}\n}}\n"),
+              "captured by a loop that matches on its state, consumed by the break value"),
+        2 => (format!("fn zgas(a: felt252, z: {tn}) -> felt252 {{\n    let mut s = a;\n    while !nz(s) {{\n        s = mix(1, s);\n        let _p = @z;\n    }};\n    {e}\n}}\n"),
+              "snapshotted inside a while loop with a nopanic body, consumed after it"),
+        _ => (format!("fn zgas(z: {tn}, s: felt252) -> felt252 {{ if nz(s) {{ {e} }} else {{ zgas(z, mix(1, s)) }} }}\n"),
+              "parameter of a recursive function with a nopanic body"),
+    };
+    g.injected = Some(Inject::MissingDropOutOfGas(format!("{tn} {what}")));
+    text
+}
+
+/// Generates the crate for `seed`.  `plan` injects a violation (at the k-th reachable point).
+pub fn generate(seed: u64, plan: Option<Plan>, budget: usize) -> Generated {
     let mut g = Gen::scratch(seed);
     g.plan = plan;
-    g.irng = Rng(seed.wrapping_mul(0x9E37) ^ plan.map(|p| p.0 as u64 * 2 + p.1 as u64).unwrap_or(0));
-    g.out.push_str(PRELUDE);
+    g.irng = Rng(seed.wrapping_mul(0x9E37) ^ match plan { None => 0, Some(Plan::Uam(k)) => 2 * k as u64 + 1, Some(Plan::Md(k)) => 2 * k as u64 + 2, Some(Plan::Gas) => 0x6a5 });
+    let pre = crate_prelude(&mut g);
+    g.out.push_str(&pre);
+    if plan == Some(Plan::Gas) { let t = gas_violation(&mut g); g.out.push_str(&t); }
     let (_, p0) = g.function("f0", None, budget);
     let meth = g.rng.bool();
     let mut p1 = vec![];
